@@ -105,6 +105,12 @@ def replay_on_real_code(prop, rec, model, reg, kind, outdir):
     return fn, res
 
 
+def _norm(name):
+    import re
+    n = re.sub(r"\[[^\]]*\]", "", name)
+    return re.sub(r"(\.\d+)+$", "", n)
+
+
 def finding_matches(k, prop, name, model):
     if k.get("property") != prop:
         return False
@@ -278,6 +284,7 @@ def run_property(prop, tier, seed, jobs, write_baseline, t_start):
         with mp.Pool(1, maxtasksperchild=1) as fpool:
             return fpool.apply(_work, (u,))
 
+    baseline_norm = {_norm(b) for b in baseline}
     fallback_cache = {}
     proof_lost = []
     for q, why in unsupported:
@@ -334,7 +341,9 @@ def run_property(prop, tier, seed, jobs, write_baseline, t_start):
                 known_hits.append((hit[0], name, reproduced, replay_path))
                 continue
             # a recorded finding whose stored input no longer fails on the real code suppresses nothing
-        in_baseline = name in baseline
+        # a clause keeps its identity when an edit changes the number of exits or branches of the function: `post:x[r1]`,
+        # `post:x[then].0` and `post:x` are the same contract clause
+        in_baseline = name in baseline or _norm(name) in baseline_norm
         if not refuted and o["unit_kind"] in ("inv", "unroll") and same_text_as_baseline(o):
             # nothing this obligation was generated from has changed since it was last discharged, and no counter-example
             # exists: solver budget (already retried), never a violation
